@@ -642,8 +642,8 @@ pub fn run_property<P: Prop>(tier: Tier, seed: u64) -> Outcome {
                             let _ = std::fs::write(&path, serde_json::to_string_pretty(&doc).unwrap());
                         }
                     }
-                    reason = format!("{} [history-dependent: the shrunk case passes when evaluated alone in a fresh process - state survives between evaluations in one process; the replay file re-runs the worker's sequence]", reason);
-                    eprintln!("note: the failing case passes on its own in a fresh process: the failure depends on earlier evaluations");
+                    reason = format!("{} [the shrunk case passes when evaluated alone in a fresh process: the failure depends on the evaluations that preceded it in the process (state that survives between calls) or on something that varies from run to run; the replay file re-runs the worker's sequence]", reason);
+                    eprintln!("note: the failing case passes on its own in a fresh process: the failure depends on earlier evaluations or varies from run to run");
                 }
             }
         }
